@@ -48,6 +48,12 @@ func subQueryText(fr *FuncResult, o *Obligation, sg *SubGoal) string {
 		b.WriteString(l)
 		b.WriteByte('\n')
 	}
+	if !o.NoStatics {
+		for _, l := range fr.Statics {
+			b.WriteString(l)
+			b.WriteByte('\n')
+		}
+	}
 	for _, l := range sliceScript(fr.Script[:sg.Prefix], sg, cover) {
 		b.WriteString(l)
 		b.WriteByte('\n')
@@ -101,7 +107,7 @@ func runSolver(s Solver, file string, timeoutMs int) solveResult {
 // discharge decides one obligation: z3-new first with a short budget, then the
 // other two in parallel with the full budget.
 func discharge(fr *FuncResult, o *Obligation, dir string, timeoutMs int, idx int) {
-	if o.Solver == "syntactic" {
+	if o.Solver == "syntactic" || o.Status == "unsat" && o.Solver != "" {
 		return
 	}
 	if len(o.Subs) > 0 {
@@ -138,8 +144,8 @@ func discharge(fr *FuncResult, o *Obligation, dir string, timeoutMs int, idx int
 		timeoutMs = 3000
 	}
 	first := timeoutMs
-	if first > 1000 {
-		first = 1000
+	if first > 5000 {
+		first = 5000
 	}
 	t0 := time.Now()
 	r := runSolver(solvers[0], file, first)
@@ -186,6 +192,7 @@ func dischargeAll(items []workItem, timeoutMs, workers int) {
 		panic(err)
 	}
 	defer os.RemoveAll(dir)
+	// dischargeBatches(items, dir, timeoutMs, workers)
 	var wg sync.WaitGroup
 	ch := make(chan int)
 	for w := 0; w < workers; w++ {
@@ -329,4 +336,97 @@ func smtSymbols(text string) []string {
 		}
 	}
 	return out
+}
+
+// dischargeBatches decides groups of single-goal obligations that share their
+// context in one incremental z3 run (push/pop); anything not unsat there is
+// left for the individual path (which also produces models).
+func dischargeBatches(items []workItem, dir string, timeoutMs, workers int) {
+	groups := map[string][]int{}
+	var keys []string
+	for i, it := range items {
+		o := it.o
+		if o.Batch == "" || len(o.Subs) != 1 || o.Solver == "syntactic" {
+			continue
+		}
+		k := o.Batch
+		if _, ok := groups[k]; !ok {
+			keys = append(keys, k)
+		}
+		groups[k] = append(groups[k], i)
+	}
+	var wg sync.WaitGroup
+	ch := make(chan string)
+	for w := 0; w < workers; w++ {
+		wg.Add(1)
+		go func() {
+			defer wg.Done()
+			for k := range ch {
+				idxs := groups[k]
+				fr := items[idxs[0]].fr
+				var b strings.Builder
+				b.WriteString("(set-logic ALL)\n")
+				for _, l := range fr.Prelude {
+					b.WriteString(l)
+					b.WriteByte('\n')
+				}
+				// common script prefix: the smallest prefix (all obligations of a batch share it)
+				prefix := items[idxs[0]].o.Subs[0].Prefix
+				for _, i := range idxs {
+					if p := items[i].o.Subs[0].Prefix; p < prefix {
+						prefix = p
+					}
+				}
+				for _, l := range fr.Script[:prefix] {
+					b.WriteString(l)
+					b.WriteByte('\n')
+				}
+				for _, i := range idxs {
+					o := items[i].o
+					sg := o.Subs[0]
+					b.WriteString("(push 1)\n")
+					if !o.NoStatics {
+						for _, l := range fr.Statics {
+							b.WriteString(l)
+							b.WriteByte('\n')
+						}
+					}
+					for _, l := range fr.Script[prefix:sg.Prefix] {
+						b.WriteString(l)
+						b.WriteByte('\n')
+					}
+					for _, l := range sg.Extra {
+						b.WriteString(l)
+						b.WriteByte('\n')
+					}
+					fmt.Fprintf(&b, "(assert %s)\n(assert (not %s))\n(check-sat)\n(pop 1)\n", sg.Cond, sg.Goal)
+				}
+				file := filepath.Join(dir, fmt.Sprintf("batch%d.smt2", idxs[0]))
+				os.WriteFile(file, []byte(b.String()), 0o644)
+				t0 := time.Now()
+				ctx, cancel := context.WithTimeout(context.Background(), time.Duration(timeoutMs*len(idxs)/4+5000)*time.Millisecond)
+				cmd := exec.CommandContext(ctx, "z3-new", fmt.Sprintf("-t:%d", timeoutMs), file)
+				var out bytes.Buffer
+				cmd.Stdout = &out
+				cmd.Stderr = &out
+				cmd.Run()
+				cancel()
+				os.Remove(file)
+				lines := strings.Split(strings.TrimSpace(out.String()), "\n")
+				per := time.Since(t0).Seconds() / float64(len(idxs))
+				if len(lines) == len(idxs) {
+					for n, i := range idxs {
+						if strings.TrimSpace(lines[n]) == "unsat" {
+							items[i].o.Status, items[i].o.Solver, items[i].o.Seconds = "unsat", "z3-new(batch)", per
+						}
+					}
+				}
+			}
+		}()
+	}
+	for _, k := range keys {
+		ch <- k
+	}
+	close(ch)
+	wg.Wait()
 }
